@@ -41,7 +41,24 @@ func buildMarshalCase(k *MarshalCase) (reflect.Type, reflect.Value) {
 var otherValue = map[string]interface{}{"zzzzzzzzzzzzzzzz": []int{7, 8, 9, 10, 11, 12}, "yyyyyyyy": "................................................................"}
 
 var encNames = []string{"MarshalText(value)", "MarshalText(pointer)", "MarshalBinary(value)", "MarshalBinary(pointer)", "MarshalBinaryLST", "Encoder stream (text)", "Encoder stream (binary)",
-	"MarshalTo(text Writer)", "MarshalTo(binary Writer)", "NewEncoderOpts(pretty Writer)", "NewBinaryEncoderLST"}
+	"MarshalTo(text Writer)", "MarshalTo(binary Writer)", "NewEncoderOpts(pretty Writer)", "NewBinaryEncoderLST", "EncodeAs(text)", "EncodeAs(binary)"}
+
+// topHint is the type hint that applies to a value of type t at the top level (what a field tag could say).
+func topHint(t reflect.Type) (string, ion.Type) {
+	for t.Kind() == reflect.Ptr {
+		t = t.Elem()
+	}
+	switch {
+	case typeHasMarshaler(t, 0):
+	case t.Kind() == reflect.String:
+		return "symbol", ion.SymbolType
+	case t.Kind() == reflect.Slice && t.Elem().Kind() == reflect.Uint8:
+		return "clob", ion.ClobType
+	case (t.Kind() == reflect.Slice || t.Kind() == reflect.Array) && t.Elem().Kind() != reflect.Uint8 && leafNoHint(t.Elem()):
+		return "sexp", ion.SexpType
+	}
+	return "", ion.NoType
+}
 
 // runMarshalEnc runs one encoding path; "" when the property holds.
 func runMarshalEnc(t reflect.Type, v reflect.Value, enc int, k *MarshalCase) (verdict string) {
@@ -50,8 +67,22 @@ func runMarshalEnc(t reflect.Type, v reflect.Value, enc int, k *MarshalCase) (ve
 			verdict = "panic: " + ionx.PanicSite(rec)
 		}
 	}()
-	binary := enc == 2 || enc == 3 || enc == 4 || enc == 6 || enc == 8 || enc == 10
-	image, ok := imageOf(v, "", !binary)
+	binary := enc == 2 || enc == 3 || enc == 4 || enc == 6 || enc == 8 || enc == 10 || enc == 12
+	hintName, hintType := "", ion.NoType
+	if enc == 11 || enc == 12 {
+		hintName, hintType = topHint(t)
+		// text that looks like a symbol id is a SID reference through WriteSymbolFromString (DESIGN 7.3)
+		if hintName == "symbol" {
+			sv := v
+			for sv.Kind() == reflect.Ptr && !sv.IsNil() {
+				sv = sv.Elem()
+			}
+			if sv.Kind() == reflect.String && ionx.LooksLikeSID(sv.String()) {
+				hintName, hintType = "", ion.NoType
+			}
+		}
+	}
+	image, ok := imageOf(v, hintName, !binary)
 	if !ok {
 		return ""
 	}
@@ -106,6 +137,16 @@ func runMarshalEnc(t reflect.Type, v reflect.Value, enc int, k *MarshalCase) (ve
 		var buf bytes.Buffer
 		e := ion.NewBinaryEncoderLST(&buf, ion.NewLocalSymbolTable(nil, texts))
 		if err = e.Encode(v.Interface()); err == nil {
+			err = e.Finish()
+		}
+		out = buf.Bytes()
+	case 11, 12: // Encoder.EncodeAs with the hint a field tag would give (symbol, clob, sexp), or none
+		var buf bytes.Buffer
+		e := ion.NewTextEncoder(&buf)
+		if enc == 12 {
+			e = ion.NewBinaryEncoder(&buf)
+		}
+		if err = e.EncodeAs(v.Interface(), hintType); err == nil {
 			err = e.Finish()
 		}
 		out = buf.Bytes()
